@@ -74,7 +74,14 @@ func backendOps(c *Case, d *mapDriver, keys [][]byte, nops int) {
 			wCleanup = 2
 		}
 
-		switch c.Weighted("op", 6, 6, 3, 2, 2, 1, 2, 3, 2, 1, 1, wCleanup) {
+		switch c.Weighted("op", 6, 6, 3, 2, 2, 1, 2, 3, 2, 1, 1, wCleanup, 2) {
+		case 12: // label a key in the backend's invalidation index / invalidate the label
+			if c.Weighted("label-op", 3, 1) == 0 {
+				d.label(pickKey())
+			} else {
+				d.invalidate()
+				d.compareAll()
+			}
 		case 0: // Write
 			k := pickKey()
 			ttl := callTTLs[c.Pick("ttl", len(callTTLs))]
